@@ -642,7 +642,9 @@ class NetworkXPropertyGraph(ABCPropertyGraph, NetworkXMixin):
         # collect NodeID properties from self and other graph as set,
         # return an intersection
         self_ids = set(self.list_all_node_ids())
-        other_ids = self._collect_nodeids(self.storage.extract_graph(other_graph.graph_id))
+        other = self.storage.extract_graph(other_graph.graph_id)
+        # a graph without nodes matches nothing (the shared store has no object for it)
+        other_ids = self._collect_nodeids(other) if other is not None else set()
         return self_ids.intersection(other_ids)
 
     def merge_nodes(self, node_id: str, other_graph, merge_properties=None):
